@@ -210,7 +210,10 @@ fn parse_trade(action: SchwabAction, value: &Value) -> Result<SchwabTrade, Conve
     let common = parse_common_fields(value)?;
     let quantity = parse_required_decimal_field(action, value, KEY_QUANTITY, LABEL_QUANTITY)?;
     let price = parse_required_decimal_field(action, value, KEY_PRICE, LABEL_PRICE)?;
-    let fees_commissions = parse_optional_decimal_field(value, KEY_FEES)?;
+    // Schwab writes outflows with a minus sign; like dividend and withholding
+    // amounts, fees count by magnitude (a negative cell used to vanish from the
+    // BUY/SELL line without a warning).
+    let fees_commissions = parse_optional_decimal_field(value, KEY_FEES)?.map(|fees| fees.abs());
 
     Ok(SchwabTrade {
         common,
